@@ -416,7 +416,8 @@ def check_case(case):
                     bad("antitarget:subdivide", f"{c}: {msg}")
                     break
         # ---- command-line tier (a quarter of the cases): `cnvkit.py target` / `antitarget` on written BED files = the
-        # library calls on the same files (the antitarget command is given the target command's output, as in the pipeline)
+        # library calls on the tables those files were written from (the antitarget command is given the target command's
+        # output, as in the pipeline), so the commands' reading of their inputs is compared as well
         if gen.pick(case, "cli", 4) == 0 and not out and nonempty:
             from vk import cli
 
@@ -425,7 +426,8 @@ def check_case(case):
                 for b in case["baits"]:
                     fh.write("\t".join(map(str, b)) + "\n")
             for split in (False, True):
-                diff = cli.target_diff(bpath, d, bool(case["short"]), split, case["tavg"], ann, tag="t%d" % split)
+                diff = cli.target_diff(bpath, d, bool(case["short"]), split, case["tavg"], ann, tag="t%d" % split,
+                                       bait_arr=GA(bait_df.reset_index(drop=True)))
                 if diff:
                     bad("cli:target", diff)
                     break
@@ -436,7 +438,9 @@ def check_case(case):
                     with open(apath, "w") as fh:
                         for r in case["access"]:
                             fh.write("\t".join(map(str, r)) + "\n")
-                diff = cli.antitarget_diff(os.path.join(d, "t1.cli.bed"), apath, d, case["avg"], case["min"])
+                t_api = target.do_target(GA(bait_df.reset_index(drop=True)), ann, bool(case["short"]), True, case["tavg"])
+                diff = cli.antitarget_diff(os.path.join(d, "t1.cli.bed"), apath, d, case["avg"], case["min"], target_arr=t_api,
+                                           access_arr=acc if apath else None)
                 if diff:
                     bad("cli:antitarget", diff)
     finally:
